@@ -442,9 +442,12 @@ def near_threshold(spec, tr):
         if rl['type'] == 'const':
             s = float(F(rl['start'][0]) * SI['Time'][rl['start'][1]])
             d = float(F(rl['dur'][0]) * SI['TimeInterval'][rl['dur'][1]])
-            for t in tr['time']:
-                for edge in (s, s + d):
-                    if 0 < abs(t - edge) <= 1e-9 * max(1.0, abs(edge)):
+            for t, tu in zip(tr['time'], tr['time_units']):
+                for edge, eu in ((s, rl['start'][1]), (s + d, rl['dur'][1])):
+                    # in equal units an exact hit is decided identically by floats and rationals;
+                    # across units the code converts first, so an exact hit is within rounding too
+                    mixed = not (tu == rl['start'][1] == rl['dur'][1])
+                    if (0 < abs(t - edge) or mixed) and abs(t - edge) <= 1e-9 * max(1.0, abs(edge)):
                         return 'instant within rounding of a timer window edge'
     _, nf = oracle_C16(spec, tr)
     if nf:
@@ -551,3 +554,437 @@ def replay_C03(ctx, case):
 
 def replay_C13(ctx, case):
     replay_dynamics(ctx, case, ['C13'])
+
+
+# ---------------------------------------------------------------------------------------------
+# C11: the time axis (sweep of decimal time steps; physics patched out inside this process)
+# ---------------------------------------------------------------------------------------------
+
+def axis_only_solver(b):
+    """a Solver on `b.pt` whose per-instant physics is replaced by no-ops *on this object*, so that
+    `run` only builds the time axis (nothing changes in /repo). Returns (solver, patched?)."""
+    from gearpy.solver import Solver
+    s = Solver(b.pt)
+    ok = True
+    for name in ('_compute_powertrain_variables', '_time_integration', '_compute_powertrain_inertia'):
+        if hasattr(s, name):
+            setattr(s, name, lambda *a, **k: None)
+        else:
+            ok = False
+    return s, ok
+
+
+def tiny_chain():
+    spec = {'motor': {'w0': [100.0, 'rad/s'], 'tmax': [1.0, 'Nm'], 'J': [1.0, 'kgm^2'], 'i0': None, 'imax': None, 'pwm0': None},
+            'elems': [{'type': 'spur', 'z': 20, 'J': [1.0, 'kgm^2'], 'module': None, 'fw': None, 'E': None, 'name': 'e1'}],
+            'rels': [['joint', 0, 1]], 'load': {'coef': [0.1, 0, 0, 0, 0], 'unit': 'Nm'},
+            'init': {'pos': [0.0, 'rad'], 'speed': [0.0, 'rad/s']}, 'rules': None, 'ops': []}
+    return spec
+
+
+def eval_axis(ctx, cases):
+    """each case: dt, T (quantities), optional first run (continued), literal flag"""
+    import gearpy.units as U
+    lines, impl = [], []
+    for c in cases:
+        spec = tiny_chain()
+        b = sim.build(spec)
+        solver, patched = axis_only_solver(b)
+        if not patched:
+            ctx.note('solver internals renamed: time-axis sweep runs the full physics')
+        ops = []
+        if c.get('first') is not None:
+            ops.append({'op': 'run', 'dt': c['first']['dt'], 'T': c['first']['T']})
+        ops.append({'op': 'run', 'dt': c['dt'], 'T': c['T']})
+        err = None
+        recs = []
+        for op in ops:
+            before = len(b.pt.time)
+            try:
+                solver.run(time_discretization=sim.Q('TimeInterval', op['dt']), simulation_time=sim.Q('TimeInterval', op['T']))
+            except Exception as ex:  # noqa: BLE001
+                err = type(ex).__name__
+                break
+            recs.append({'op': 'run', 'n_before': before, 'n_after': len(b.pt.time), 'pwm_before': 1.0, 'locked_before': False})
+        t = [sim.qsi(x) for x in b.pt.time]
+        spec['ops'] = [{'op': 'run', 'dt': o['dt'], 'T': o['T'], 'stop': None} for o in ops]
+        tr = {'time': t, 'ops': recs, 'els': [{'angular position': t}], 'error': None}
+        impl.append((spec, tr, err))
+        last = '-'
+        if c.get('first') is not None and recs:
+            lt = b.pt.time[recs[0]['n_after'] - 1]
+            last = f"Time:{R(lt.value)}:{sim_unit_index('Time', lt.unit)}"
+        lines.append(f"grid dt=TimeInterval:{R(c['dt'][0])}:{sim_unit_index('TimeInterval', c['dt'][1])} "
+                     f"sim=TimeInterval:{R(c['T'][0])}:{sim_unit_index('TimeInterval', c['T'][1])} last={last}")
+    answers = ctx.driver.ask(lines) if ctx.driver.available else [None] * len(lines)
+    for c, (spec, tr, err), ans in zip(cases, impl, answers):
+        ctx.case_done(c, nontrivial=err is None and len(tr['time']) > 2)
+        ctx.count('unit ' + c['dt'][1] + '/' + c['T'][1])
+        ctx.count('continued' if c.get('first') else 'fresh')
+        if err is not None:
+            ctx.count('run rejected ' + err)
+            dtsi = float(F(c['dt'][0]) * SI['TimeInterval'][c['dt'][1]])
+            Tsi = float(F(c['T'][0]) * SI['TimeInterval'][c['T'][1]])
+            if not (err == 'ValueError' and dtsi >= Tsi * (1 - 1e-9)):
+                ctx.violation(c, {'why': f'run raised {err} for dt < T'})
+            continue
+        for msg, det in oracle_C11(spec, tr)[:1]:
+            ctx.violation(c, {'why': msg, **det})
+        if ans is not None:
+            w = ans.split()
+            if w[0] != 'ok':
+                ctx.mismatch(c, 'run accepted', ans)
+                continue
+            kv = dict(x.split('=') for x in w[1:])
+            seg = tr['ops'][-1]
+            appended = seg['n_after'] - seg['n_before'] - (1 if seg['n_before'] == 0 else 0)
+            if int(kv['n']) != appended:
+                q = float(F(c['T'][0]) * SI['TimeInterval'][c['T'][1]] / (F(c['dt'][0]) * SI['TimeInterval'][c['dt'][1]]))
+                if abs(q + 1e-9 - round(q + 1e-9)) < 1e-12 * max(1.0, q):
+                    ctx.count('step count on the guard boundary (rounding)')
+                else:
+                    ctx.mismatch(c, f'{appended} instants appended', ans)
+            elif kv['last'] != '-' and not near(parse_num_(kv['last']), tr['time'][-1], max(abs(tr['time'][-1]), 1e-12), 1e-10):
+                ctx.mismatch(c, f"last instant {tr['time'][-1]}", ans)
+
+
+def parse_num_(s):
+    from common import parse_num
+    return parse_num(s)
+
+
+def sim_unit_index(kind, unit):
+    t = _tables()
+    return t['kinds'][kind]['units'].index(unit)
+
+
+from common import R  # noqa: E402
+
+
+def run_C11(ctx):
+    prep()
+    rng = ctx.rng
+    cases = []
+    units = ['sec', 'ms', 'min', 'hour']
+    npairs = ctx.budget(400, 40000) * ctx.boost
+    nmax = ctx.budget(120, 400)
+    for _ in range(npairs):
+        e = rng.randint(0, 4)
+        m = rng.randint(1, 999)
+        dt = m / (10 ** e)          # decimal time step m*10^-e
+        n = rng.randint(2, nmax) if rng.random() < 0.9 else rng.randint(nmax, 5 * nmax)
+        literal = rng.random() < 0.5
+        T = float(F(m * n, 10 ** e)) if literal else dt * n
+        u1, u2 = rng.choice(units), rng.choice(units)
+        if rng.random() < 0.6:
+            u2 = u1
+        c = {'t': 'axis', 'dt': [float(F(dt) / SI['Time'][u1]) if u1 != 'sec' else dt, u1],
+             'T': [float(F(T) / SI['Time'][u2]) if u2 != 'sec' else T, u2], 'literal': literal}
+        if rng.random() < 0.3:
+            n0 = rng.randint(2, 40)
+            u0 = rng.choice(units)
+            c['first'] = {'dt': [float(F(dt) / SI['Time'][u0]) if u0 != 'sec' else dt, u0],
+                          'T': [float(F(dt * n0) / SI['Time'][u0]) if u0 != 'sec' else dt * n0, u0]}
+        cases.append(c)
+    # the input that used to overrun, and its relatives
+    cases += [{'t': 'axis', 'dt': [0.35, 'sec'], 'T': [10.5, 'sec'], 'literal': True},
+              {'t': 'axis', 'dt': [350.0, 'ms'], 'T': [10.5, 'sec'], 'literal': True},
+              {'t': 'axis', 'dt': [0.1, 'sec'], 'T': [0.3, 'sec'], 'literal': True},
+              {'t': 'axis', 'dt': [1000.0, 'ms'], 'T': [5000.0, 'ms'], 'literal': True, 'first': {'dt': [1.0, 'sec'], 'T': [5.0, 'sec']}},
+              {'t': 'axis', 'dt': [0.5, 'min'], 'T': [2.0, 'min'], 'literal': True, 'first': {'dt': [1.0, 'sec'], 'T': [60.0, 'sec']}}]
+    for i in range(0, len(cases), 500):
+        eval_axis(ctx, cases[i:i + 500])
+    # the axis of complete simulations (with stop conditions) as well
+    specs = [dynamics_spec(ctx.rng, ctx) for _ in range(ctx.budget(40, 600))]
+    eval_dynamics(ctx, specs, ['C11'])
+    ctx.rule = ('decimal time steps m*10^-e (m <= 999, e <= 4) x step counts, T given as dt*n or as a decimal literal, '
+                'dt and T in any of the four time units, fresh and continued runs, through the real Solver.run with the '
+                'per-instant physics replaced by no-ops inside the harness process; plus complete simulations; '
+                'non-trivial = more than 2 instants recorded')
+
+
+def replay_C11(ctx, case):
+    prep()
+    if case.get('t') == 'axis':
+        eval_axis(ctx, [case])
+    else:
+        eval_dynamics(ctx, [case['spec']], ['C11'])
+
+
+# ---------------------------------------------------------------------------------------------
+# C12: continuation and reset / rerun
+# ---------------------------------------------------------------------------------------------
+
+def hist_equal(tr1, tr2, rel=1e-9, exact=False):
+    """None if the recorded histories coincide, else a description"""
+    if tr1['error'] is not None or tr2['error'] is not None:
+        if (tr1['error'] is None) != (tr2['error'] is None):
+            return f"one schedule failed: {tr1['error']} vs {tr2['error']}"
+        return None
+    n1, n2 = len(tr1['time']), len(tr2['time'])
+    if n1 != n2:
+        return f'{n1} vs {n2} recorded instants'
+    for j in range(n1):
+        if not near(tr1['time'][j], tr2['time'][j], max(abs(tr1['time'][j]), 1e-9), 1e-12):
+            return f"time axis differs at instant {j}: {tr1['time'][j]} vs {tr2['time'][j]}"
+    for ei, (e1, e2) in enumerate(zip(tr1['els'], tr2['els'])):
+        if set(e1) != set(e2):
+            return f'element {ei} records different variables'
+        for var in e1:
+            sc = max(vscale(tr1, var), 1e-12) if var != 'pwm' else 1.0
+            for j, (a, b) in enumerate(zip(e1[var], e2[var])):
+                same = (a == b) if exact else (a == b or near(a, b, sc, rel))
+                if not same and not (math.isnan(a) and math.isnan(b)):
+                    return f'{var} of element {ei} differs at instant {j}: {a} vs {b}'
+    return None
+
+
+def run_C12(ctx):
+    prep()
+    rng = ctx.rng
+    n = ctx.budget(60, 1500) * ctx.boost
+    for _ in range(n):
+        ru = rng.random() < 0.7
+        spec = gen.gen_spec(rng, random_units=ru, sl_bias=0.5)
+        dt = 2.0 ** -rng.randint(3, 6)
+        total = rng.randint(6, 30)
+        if rng.random() < 0.6:
+            spec['rules'] = gen.const_rules(rng, total * dt, random_units=False)
+        kind = rng.choice(['split', 'split-units', 'rerun', 'rerun-new'])
+        case = {'t': 'c12', 'kind': kind, 'spec': spec}
+        if kind.startswith('split'):
+            n1 = rng.randint(2, total - 2)
+            u1 = 'sec'
+            u2 = rng.choice(['ms', 'min', 'hour']) if kind == 'split-units' else 'sec'
+            one, _, _ = gen.run_op(rng, dt_si=dt, steps=(total, total), unit=u1)
+            a, _, _ = gen.run_op(rng, dt_si=dt, steps=(n1, n1), unit=u1)
+            b2, _, _ = gen.run_op(rng, dt_si=dt, steps=(total - n1, total - n1), unit=u2)
+            case['ops_a'] = [one]
+            case['ops_b'] = [a, b2]
+        else:
+            n1 = rng.randint(3, total)
+            one, _, _ = gen.run_op(rng, dt_si=dt, steps=(n1, n1), unit='sec')
+            sched = [one]
+            if rng.random() < 0.4:
+                two, _, _ = gen.run_op(rng, dt_si=dt, steps=(3, 8), unit='sec')
+                sched.append(two)
+            case['ops_a'] = sched
+            tail = [{'op': 'reset'}, {'op': 'init', 'pos': spec['init']['pos'], 'speed': spec['init']['speed']}]
+            if kind == 'rerun-new':
+                tail.append({'op': 'new'})
+            case['ops_b'] = sched + tail + sched
+        eval_c12(ctx, case)
+    ctx.rule = ('random models (half of them self-locking, most with ConstantPWM controllers, time-dependent loads): '
+                'one run vs run + continuation at every split point (continuation also in ms / min / hour), and '
+                'schedule vs schedule + reset + re-applied initial conditions + same schedule (same or new solver); '
+                'histories compared sample by sample; non-trivial = at least 3 instants')
+
+
+def eval_c12(ctx, case):
+    spec = case['spec']
+    sa = dict(spec, ops=case['ops_a'])
+    sb = dict(spec, ops=case['ops_b'])
+    tra, ba = sim.simulate(sa)
+    trb, bb = sim.simulate(sb)
+    if tra['build_error'] or trb['build_error']:
+        ctx.violation(case, {'why': f"a generated valid powertrain was rejected: {tra.get('build_msg')}"})
+        return
+    ctx.case_done(case, nontrivial=n_inst(tra) >= 3)
+    ctx.count('kind ' + case['kind'])
+    # the longer of the two schedules against the Lean model (whole history, when short enough)
+    total = sum(r.get('n_after', 0) - r['n_before'] for r in trb['ops'] if r['op'] == 'run')
+    if ctx.driver.available and total <= 18 and sb['load']['coef'][4] == 0:
+        st, recs = sim.parse_hist(ctx.driver.ask([sim.hist_line(sb, trb)])[0])
+        d = sim.compare_hist(trb, st, recs)
+        if d is not None:
+            if near_threshold(sb, trb):
+                ctx.count('history excluded: decision within rounding of its threshold')
+            else:
+                ctx.mismatch(case, d, 'model history differs')
+    ctx.count('self-locking' if tra['sl'] else 'not self-locking')
+    if tra['locked'] and tra['locked'][-1]:
+        ctx.count('first schedule ends locked')
+    diff = hist_equal(tra, trb, exact=False)
+    if diff is None:
+        return
+    if case['kind'].startswith('rerun'):
+        # K3: reset restores the duty cycle *recorded* at the first instant (after control), while the
+        # first lock check of the original run saw the attribute as it was before the run
+        pwm_before = tra['ops'][0]['pwm_before']
+        pwm0 = tra['els'][0]['pwm'][0] if tra['els'][0].get('pwm') else None
+        if tra['sl'] and spec.get('rules') is not None and pwm0 is not None and pwm0 != pwm_before:
+            ops_c = list(case['ops_b'])
+            k = next(i for i, o in enumerate(ops_c) if o['op'] == 'init')
+            ops_c.insert(k + 1, {'op': 'pwm', 'v': pwm_before})
+            trc, _ = sim.simulate(dict(spec, ops=ops_c))
+            if hist_equal(tra, trc) is None:
+                ctx.known_finding('K3', case)
+                return
+    if near_threshold(sa, tra) or near_threshold(sb, trb):
+        ctx.count('pair excluded: decision within rounding of its threshold')
+        return
+    ctx.violation(case, {'why': 'the two schedules record different histories: ' + diff})
+
+
+def replay_C12(ctx, case):
+    prep()
+    eval_c12(ctx, case)
+
+
+# ---------------------------------------------------------------------------------------------
+# C16: stop conditions placed inside the reachable range
+# ---------------------------------------------------------------------------------------------
+
+def run_C16(ctx):
+    prep()
+    rng = ctx.rng
+    n = ctx.budget(80, 2500) * ctx.boost
+    specs = []
+    for _ in range(n):
+        spec = gen.gen_spec(rng, random_units=rng.random() < 0.7, sl_bias=0.2)
+        dt = 2.0 ** -rng.randint(3, 6)
+        total = rng.randint(6, 16)
+        if spec['load']['coef'][4] != 0:
+            total = rng.randint(4, 6)
+        op, _, _ = gen.run_op(rng, dt_si=dt, steps=(total, total), unit=rng.choice(['sec', 'ms']))
+        spec['ops'] = [op]
+        # learn the reachable range of the sensed quantity from the unstopped run
+        tr0, _ = sim.simulate(spec)
+        if tr0['build_error'] or tr0['error']:
+            continue
+        st = random_stop(rng, spec)
+        series, _ = sensor_series(spec, tr0, st)
+        where = rng.choice(['inside', 'inside', 'inside', 'before', 'beyond'])
+        vals = sorted(set(series[1:])) or [0.0]
+        if where == 'inside' and len(vals) >= 2:
+            k = rng.randrange(len(vals) - 1)
+            thr = (vals[k] + vals[k + 1]) / 2
+        elif where == 'before':
+            thr = min(series) - abs(min(series)) * 0.1 - 1.0
+        else:
+            thr = max(series) + abs(max(series)) * 0.1 + 1.0
+        kind = {'enc': 'AngularPosition', 'tac': 'AngularSpeed', 'amp': 'Current'}[st['sensor']]
+        st['thr'] = gen.in_unit(rng, kind, thr, True)
+        op['stop'] = st
+        spec['_unstopped'] = True
+        specs.append(spec)
+    for i in range(0, len(specs), 200):
+        batch = specs[i:i + 200]
+        for s in batch:
+            s.pop('_unstopped', None)
+        eval_dynamics(ctx, batch, ['C16'])
+        # the stopped run is a prefix of the unstopped one
+        for s in batch:
+            trs, _ = sim.simulate(s)
+            s0 = json.loads(json.dumps(s))
+            s0['ops'][0]['stop'] = None
+            tr0, _ = sim.simulate(s0)
+            if trs['error'] or tr0['error'] or trs['build_error']:
+                continue
+            k = len(trs['time'])
+            ctx.count('stopped early' if k < len(tr0['time']) else 'ran to the end')
+            cut = dict(tr0, time=tr0['time'][:k], els=[{v: x[:k] for v, x in e.items()} for e in tr0['els']])
+            d = hist_equal(trs, cut, exact=True)
+            if d is not None:
+                ctx.violation({'t': 'sim', 'spec': s}, {'why': 'the stopped run is not a prefix of the unstopped run: ' + d})
+    ctx.rule = ('encoder / tachometer on any element, amperometer, five operators, thresholds placed between two '
+                'consecutive readings of the unstopped run (inside), below all of them and beyond all of them, in any '
+                'unit; the comparison is re-evaluated on the recorded series and the stopped history is compared with '
+                'the prefix of the unstopped one and with the Lean model; non-trivial = at least 3 instants')
+
+
+def replay_C16(ctx, case):
+    replay_dynamics(ctx, case, ['C16'])
+
+
+# ---------------------------------------------------------------------------------------------
+# C17: every element kind x every subset of optional data x schedules
+# ---------------------------------------------------------------------------------------------
+
+VAR_ORDER = ['angular position', 'angular speed', 'angular acceleration', 'torque', 'driving torque', 'load torque',
+             'tangential force', 'bending stress', 'contact stress', 'electric current', 'pwm']
+
+
+def info_token(spec, tr, ei):
+    """ElemInfo of element `ei` of the powertrain for the driver"""
+    if ei == 0:
+        m = spec['motor']
+        return f"motor,0,0,0,0,{1 if (m['i0'] is not None and m['imax'] is not None) else 0},-"
+    e = sim.spec_chain(spec, tr)[ei - 1]
+    kind = {'fly': 'flywheel', 'spur': 'spur', 'helical': 'helical', 'wormgear': 'wormGear', 'wormwheel': 'wormWheel'}[e['type']]
+    b = lambda k: 1 if e.get(k) is not None else 0  # noqa: E731
+    mate = '-'
+    if e['type'] == 'wormwheel':
+        # the worm it is mated with (driver or driven)
+        idx = spec['elems'].index(e) + 1
+        for r in spec['rels']:
+            if r[0] == 'worm' and idx in (r[1], r[2]):
+                other = r[2] if r[1] == idx else r[1]
+                mate = str(1 if spec['elems'][other - 1].get('d') is not None else 0)
+    return f"{kind},{b('module')},{b('fw')},{b('E') if e['type'] in ('spur', 'helical') else 0},{b('d')},0,{mate}"
+
+
+def run_C17(ctx):
+    prep()
+    rng = ctx.rng
+    n = ctx.budget(70, 2000) * ctx.boost
+    for _ in range(n):
+        spec = gen.gen_spec(rng, random_units=rng.random() < 0.5, sl_bias=0.3, optional_data=rng.choice([0.3, 0.6, 0.9]))
+        dt = 2.0 ** -rng.randint(3, 6)
+        ops = []
+        recops = []
+        for _k in range(rng.randint(1, 4)):
+            r = rng.random()
+            if r < 0.6 or not ops:
+                op, _, nn = gen.run_op(rng, dt_si=dt, steps=(2, 7), unit='sec')
+                if rng.random() < 0.3:
+                    op['stop'] = random_stop(rng, spec)
+                ops.append(op)
+            elif r < 0.85:
+                ops += [{'op': 'reset'}, {'op': 'init', 'pos': spec['init']['pos'], 'speed': spec['init']['speed']}]
+            else:
+                ops.append({'op': 'new'})
+        spec['ops'] = ops
+        tr, b = sim.simulate(spec)
+        case = {'t': 'sim', 'spec': spec}
+        if tr['build_error']:
+            ctx.violation(case, {'why': f"a generated valid powertrain was rejected: {tr.get('build_msg')}"})
+            continue
+        ctx.case_done(case, nontrivial=len(tr['time']) >= 2)
+        for ty in tr['types']:
+            ctx.count('element ' + ty)
+        for msg, det in oracle_C17(spec, tr, b)[:1]:
+            ctx.violation(case, {'why': msg, **det})
+        if tr['error'] is not None or not ctx.driver.available:
+            continue
+        # bookkeeping model: one update per recorded instant of each run, resets in between
+        seq = []
+        for op, rec in zip(spec['ops'], tr['ops']):
+            if op['op'] == 'run':
+                seq += ['u'] * (rec['n_after'] - rec['n_before'])
+            elif op['op'] == 'reset':
+                seq.append('r')
+        lines = [f"t elem={info_token(spec, tr, ei)} ops={','.join(seq)}" for ei in range(tr['n'])]
+        for ei, ans in enumerate(ctx.driver.ask(lines)):
+            w = ans.split()
+            kv = dict(x.split('=') for x in w[1:])
+            model = {v: (None if c == '-' else int(c)) for v, c in zip(VAR_ORDER, kv['tv'].split(','))}
+            impl = {v: tr['keys'][ei].get(v) for v in VAR_ORDER}
+            if model != impl or int(kv['n']) != len(tr['time']):
+                ctx.mismatch(case, {'element': ei, 'type': tr['types'][ei], 'keys': impl, 'n': len(tr['time'])}, ans)
+    ctx.rule = ('all six element kinds with random subsets of the optional data (module, face width, elastic modulus, worm '
+                'reference diameter, motor currents), random topologies, schedules of runs / early stops / resets / new '
+                'solvers; lengths, kinds, last-sample-equals-attribute, export and snapshot checked on every simulated '
+                'powertrain and the key/length bookkeeping compared with the Lean model; non-trivial = at least 2 instants')
+
+
+def replay_C17(ctx, case):
+    prep()
+    spec = case['spec']
+    tr, b = sim.simulate(spec)
+    ctx.case_done(case)
+    if tr['build_error']:
+        ctx.violation(case, {'why': 'build failed'})
+        return
+    for msg, det in oracle_C17(spec, tr, b)[:1]:
+        ctx.violation(case, {'why': msg, **det})
